@@ -146,3 +146,16 @@ Definition c20_check (ops : list lop) (impl_pending : list (list (text * lval * 
    map S_ (c_keys c),
    table_eqb (parse_csv (c_file c)) (expected_table (c_keys c) cds),
    List.length (l_val st)).
+
+(* ---- extension: log levels, the disabled logger, truncation in the human formats ---- *)
+Definition DISABLED_ : Z := 50%Z.
+Definition log_emits (cfg level : Z) : bool := Z.leb cfg level.        (* Logger.log / debug / info / warn / error *)
+Definition l_dump_level (cfg : Z) (st : lstate) : lstate * option dumped :=
+  if Z.eqb cfg DISABLED_ then (st, None) else let '(st', d) := l_dump st in (st', Some d).
+
+(* HumanOutputFormat._truncate with max_length m: texts longer than m keep their first m-3 characters plus "..." *)
+Definition dots : text := list_ascii_of_string "...".
+Definition truncate (m : nat) (s : text) : text :=
+  if Nat.ltb m (List.length s) then firstn (m - 3) s ++ dots else s.
+(* two different keys collide in the table when they are cut to the same text: the writer then raises ValueError *)
+Definition collide (m : nat) (a b : text) : bool := negb (text_eqb a b) && text_eqb (truncate m a) (truncate m b).
